@@ -43,3 +43,4 @@ def replay(w):
         sig = 'C16:tsv-edge-cells-stripped' if edge else f'C16:{w["fn"]}'
         return {'reproduced': True, 'signature': sig, 'what': f'{w["fn"]}{tuple(args)}: the parsed row differs from the cells the line was rendered from' + (' (empty/blank cell at the edge of a tab-separated row is eaten by strip())' if edge else '')}
     return {'reproduced': False, 'what': 'parsed as rendered'}
+
